@@ -131,11 +131,23 @@ def coq_build(targets: list[str], timeout: int = 1500) -> BuildResult:
             cwd=COQ, capture_output=True, text=True,
         )
         res.log = p.stdout[-4000:] + "\n" + p.stderr[-8000:]
-        for t, v in zip(targets, vo):
-            if (COQ / v).exists() and (COQ / v).stat().st_mtime >= (COQ / (v[:-3] + ".v")).stat().st_mtime:
+        # a target counts as built only if make itself now considers it up to date (a stale .vo left
+        # over from before a dependency changed does not count)
+        def up_to_date(v):
+            q = subprocess.run(["make", "-q", v], cwd=COQ, capture_output=True, text=True)
+            return q.returncode == 0 and (COQ / v).exists()
+
+        with ThreadPoolExecutor(max_workers=NPROC) as ex:
+            status = list(ex.map(up_to_date, vo))
+        for t, v, ok in zip(targets, vo, status):
+            if ok:
                 res.ok_targets.append(t)
             else:
                 res.failed[t] = _error_for(p.stderr, v)
+                try:
+                    (COQ / v).unlink()
+                except FileNotFoundError:
+                    pass
     return res
 
 
